@@ -117,6 +117,13 @@ def same_label(a, b):
     return a == b
 
 
+def eqm(a, b):
+    """member sets compared by equality of labels (4 and 4.0 are the same node), never by repr"""
+    if isinstance(a, tuple):
+        return set(a[0]) == set(b[0]) and set(a[1]) == set(b[1])
+    return set(a) == set(b)
+
+
 def compare(snap, model, exp=None, check_order=True):
     """list of (clause, detail) differences between a SUT snapshot and a model."""
     diffs = []
@@ -662,6 +669,14 @@ def check_all_actors(world, rec, skip=None):
         act.snap = snap
         if diffs or bad:
             return False
+    for name, act in list(world.actors.items()):
+        try:
+            fz = bool(act.sut.is_frozen)
+        except Exception as ex:  # noqa
+            fz = repr(ex)
+        if fz != act.model.frozen:
+            world.find({"C18"}, "is_frozen_wrong", rec, act.kind, f"actor {name}: is_frozen={fz!r}, expected {act.model.frozen}")
+            return False
     return True
 
 
@@ -750,6 +765,12 @@ def exec_mutation(world, actor, rec):
         world.note_state(actor)
         return ok
 
+    if actor.model.frozen and op in actor.model.STRUCTURAL:
+        ok = judge_frozen(world, actor, rec, pre, post, exc, mop, margs)
+        actor.model = M.model_from_snapshot(actor.kind, post, frozen=True)
+        actor.snap = post
+        return ok
+
     # ---- reference model ----
     factory, new_ids = _fresh_factory(pre, post, actor.kind)
     relaxed = info["relaxed"]
@@ -824,7 +845,7 @@ def exec_mutation(world, actor, rec):
                 world.find({"C04"}, "existing_edge_removed_by_add", rec, actor.kind, f"edge {e!r}")
                 ok = False
             else:
-                if canon(pre["members"][e]) != canon(post["members"][e]) and op != "add_node_to_edge":
+                if not eqm(pre["members"][e], post["members"][e]) and op != "add_node_to_edge":
                     world.find({"C04"}, "existing_edge_altered_by_add", rec, actor.kind,
                                f"edge {e!r}: {canon(pre['members'][e])!r} -> {canon(post['members'][e])!r}")
                     ok = False
@@ -877,7 +898,7 @@ def judge_relaxed(world, actor, rec, pre, post, exc, info, m, rej, problems):
             continue
         if removing:
             continue
-        if canon(pre["members"][e]) != canon(post["members"][e]):
+        if not eqm(pre["members"][e], post["members"][e]):
             world.find({"C05"}, "unrelated_edge_changed_after_fault", rec, kind, f"edge {e!r}")
             ok = False
         if pre["eattr"][e] != post["eattr"][e]:
@@ -905,15 +926,29 @@ def judge_shuffle(world, actor, rec, pre, post, exc, a):
 
     def same_state():
         return (pre["nodes"] == post["nodes"] and pre["edges"] == post["edges"]
-                and canon(pre["members"]) == canon(post["members"]) and pre["eattr"] == post["eattr"]
+                and all(eqm(pre["members"][e], post["members"][e]) for e in pre["edges"]) and pre["eattr"] == post["eattr"]
                 and pre["nattr"] == post["nattr"])
 
     if frozen:
-        if exc is None or not is_lib_exc(xgi, exc) or not same_state():
-            world.find({"C18"}, "frozen_network_modified" if not same_state() else "frozen_call_not_rejected",
-                       rec, kind, f"random_edge_shuffle on a frozen network: outcome "
-                       f"{'returned' if exc is None else type(exc).__name__}")
+        e1, e2 = a.get("e1"), a.get("e2")
+        if e1 is None or e2 is None:
+            pairs = [(x, y) for x in pre["edges"] for y in pre["edges"] if x != y]
+        else:
+            pairs = [(e1, e2)] if e1 in pre["members"] and e2 in pre["members"] and e1 != e2 else []
+        could = any(set(pre["members"][x]) - set(pre["members"][y]) and
+                    set(pre["members"][y]) - set(pre["members"][x]) for x, y in pairs)
+        if not same_state():
+            world.find({"C18"}, "frozen_network_modified", rec, kind,
+                       "random_edge_shuffle changed a frozen network "
+                       f"({'returned' if exc is None else 'raised ' + type(exc).__name__})")
             return False
+        if could:
+            world.probes["frozen_rejection_checked:" + kind + ".random_edge_shuffle"] += 1
+            if exc is None or not is_lib_exc(xgi, exc):
+                world.find({"C18"}, "frozen_call_not_rejected", rec, kind,
+                           "random_edge_shuffle can rewire this frozen network but "
+                           f"{'returned normally' if exc is None else 'raised ' + type(exc).__name__}")
+                return False
         return True
     if exc is not None:
         if not same_state():
@@ -955,12 +990,59 @@ def judge_shuffle(world, actor, rec, pre, post, exc, a):
                 world.find(props, "shuffle_touched_other_edges", rec, kind, repr(e))
                 ok = False
     if len(changed) == 2:
-        before = sorted(map(repr, list(pre["members"][changed[0]]) + list(pre["members"][changed[1]])))
-        after = sorted(map(repr, list(post["members"][changed[0]]) + list(post["members"][changed[1]])))
+        # (compared by equality, not by repr: the labels 4 and 4.0 are the same node)
+        before = Counter(list(pre["members"][changed[0]]) + list(pre["members"][changed[1]]))
+        after = Counter(list(post["members"][changed[0]]) + list(post["members"][changed[1]]))
         if before != after:
             world.find(props, "shuffle_changed_union", rec, kind, repr(changed))
             ok = False
     elif len(changed) == 1:
         world.find(props, "shuffle_changed_union", rec, kind, repr(changed))
         ok = False
+    return ok
+
+
+def structure_of(snap):
+    return (list(snap["nodes"]), list(snap["edges"]), [canon(snap["members"][e]) for e in snap["edges"]])
+
+
+def judge_frozen(world, actor, rec, pre, post, exc, mop, margs):
+    """C18: on a frozen network a call that *would* change the structure of an unfrozen copy
+    must raise the library's error and leave the network unchanged; any other call must at
+    least leave the structure alone."""
+    xgi = world.xgi
+    kind = actor.kind
+    # would the documented effect change the structure?
+    m = actor.model.copy()
+    m.frozen = False
+    m._choice_seq, m._choice_made, m._choice_ns = [], [], []
+    before = (list(m.nodes), list(m.edges), [canon(m.edges[e]) for e in m.edges])
+    n_auto = [0]
+
+    def fresh(hint=None):
+        n_auto[0] += 1
+        return ("__auto__", n_auto[0])
+
+    try:
+        m.step(mop, deepcopy(margs), fresh)
+    except M.NoFresh:
+        pass
+    after = (list(m.nodes), list(m.edges), [canon(m.edges[e]) for e in m.edges])
+    would_change = before != after
+    changed = structure_of(pre) != structure_of(post)
+    ok = True
+    if changed:
+        world.find({"C18"}, "frozen_network_modified", rec, kind,
+                   f"{rec['op']} changed the structure of a frozen network "
+                   f"({'returned' if exc is None else 'raised ' + type(exc).__name__})")
+        ok = False
+    elif would_change:
+        world.probes["frozen_rejection_checked:" + kind + "." + rec["op"]] += 1
+        if exc is None:
+            world.find({"C18"}, "frozen_call_not_rejected", rec, kind,
+                       f"{rec['op']} would modify an unfrozen copy but returned normally on the frozen network")
+            ok = False
+        elif not is_lib_exc(xgi, exc):
+            world.find({"C18"}, "frozen_wrong_error_type", rec, kind, f"{type(exc).__name__}: {exc}")
+            ok = False
     return ok
